@@ -22,11 +22,13 @@ structure Atom where
   resid : Option Int
   resname : Option String
   icode : Option String
-  name : Option String      -- `none` = the node has no 'atomname' attribute
+  name : Option String      -- `none` = the node has no 'atomname' attribute (or it is `None`, see `nameNone`)
   element : Option String
   x : Int
   y : Int
   z : Int
+  nameNone : Bool := false  -- the node HAS an 'atomname' attribute and its value is `None` (then `name = none`)
+  hasPos : Bool := true     -- the node has a 'position' attribute (x, y, z are meaningless otherwise)
   deriving Repr, DecidableEq, Inhabited
 
 /-- the identifying tuple `(mol_idx, chain, resid, resname, insertion_code)` -/
@@ -92,10 +94,12 @@ def lookupBlock (ff : FF) : Option String → Option Block
     | some e => if e.2.names.isEmpty then none else some e.2
     | none => none
 
-/-- some atom name occurs on two atoms of the group -/
+/-- some atom name occurs on two atoms of the group.  `mol_name_to_idx` is filled for the nodes with
+`'atomname' in node`: a missing attribute is skipped, the value `None` is a key like any other. -/
 def hasDupName (atoms : List Atom) (ms : List Nat) : Bool :=
   ms.any fun i => ms.any fun j =>
-    i != j && (atomAt atoms i).name.isSome && (atomAt atoms i).name == (atomAt atoms j).name
+    i != j && (((atomAt atoms i).name.isSome && (atomAt atoms i).name == (atomAt atoms j).name)
+               || ((atomAt atoms i).nameNone && (atomAt atoms j).nameNone))
 
 /-- `mol_name_to_idx[name]` -/
 def lookupName (atoms : List Atom) (ms : List Nat) (nm : String) : Option Nat :=
@@ -256,6 +260,8 @@ structure InAtom where
   x : Int
   y : Int
   z : Int
+  nameNone : Bool := false
+  hasPos : Bool := true
   deriving Repr, DecidableEq, Inhabited
 
 structure InMol where
@@ -267,7 +273,8 @@ structure InMol where
 replaces whatever was there; `_res_serial` is assigned afresh by the loop over residues. -/
 def InAtom.label (i : Nat) (a : InAtom) : Atom :=
   { mol := i, chain := a.chain, resid := a.resid, resname := a.resname, icode := a.icode,
-    name := a.name, element := a.element, x := a.x, y := a.y, z := a.z }
+    name := a.name, element := a.element, x := a.x, y := a.y, z := a.z,
+    nameNone := a.nameNone, hasPos := a.hasPos }
 
 /-- `disjoint_union_all`: molecule number `i`, first new node key `off` -/
 def unionFrom : Nat → Nat → List InMol → List Atom × List Edge
